@@ -268,4 +268,31 @@ def run_family_plain(run_, fam, label):
     for i, v in zip(idx, run_model(spec_lines) if spec_lines else []):
         if "C02=0" in v or "C03=0" in v or "C04=0" in v:
             bad.append((i, "after 'Assuming -R' the reported placements are not admissible for the reversed hunks (oracle: %s)" % v))
+    # when is the patch taken for reversed at all?  Only when its first hunk does not sit exactly at its stated place AND the
+    # reversed first hunk does (or the first hunk is found nowhere while the reversed one is): a first hunk that the locator
+    # finds, at an offset or with fuzz, while its reverse is not exactly in place, has to be applied (C03), not turned round
+    from locate import locate_case
+    lc, li = [], []
+    for i, c in enumerate(fam):
+        if parse_result(impl[i]) is None:
+            continue
+        h0 = c["hs"][0]
+        if c["opts"].get("R"):
+            h0 = reverse_hunks([h0])[0]
+        r0 = reverse_hunks([h0])[0]
+        lc.append(locate_case(c["opts"].get("l", 0), 0, c["opts"].get("F", 2), 0, c["f"], h0))
+        lc.append(locate_case(c["opts"].get("l", 0), 0, c["opts"].get("F", 2), 0, c["f"], r0)); li.append(i)
+    la = run_lines(os.path.join(build_impl("plain"), "l1_harness"), lc) if lc else []
+    for j, i in enumerate(li):
+        fw, rv = la[2 * j].split(), la[2 * j + 1].split()
+        if not fw or not rv or fw[0] not in ("FOUND", "NOTFOUND") or rv[0] not in ("FOUND", "NOTFOUND"):
+            continue
+        res = parse_result(impl[i])
+        guessed = "Assuming -R" in res["msgs"] or impl[i].find("skipped=1") >= 0
+        fw_found = fw[0] == "FOUND"; fw_perfect = fw_found and fw[2] == "0" and fw[3] == "0"
+        rv_perfect = rv[0] == "FOUND" and rv[2] == "0" and rv[3] == "0"
+        may_guess = (not fw_perfect) and (rv_perfect or (not fw_found and rv[0] == "FOUND"))
+        if guessed and not may_guess and fw_found:
+            bad.append((i, "the first hunk fits (locate_hunk: %s) and its reverse does not sit exactly at the stated place (%s), yet the patch is taken for reversed: the hunk is %s instead of applied"
+                        % (" ".join(fw), " ".join(rv), "reversed" if "Assuming -R" in res["msgs"] else "skipped")))
     return cases, impl, model, mism, bad
